@@ -108,14 +108,18 @@ def rangeProbe (serial : Nat) (atoms : List Atom) : Option Ordering :=
 def Conformer.binaryFindAtom (c : Conformer) (serial : Nat) : Option Atom :=
   bsearch (fun a => compare a.serial serial) c.atoms.length c.atoms
 
+/-- the body of the conformer loop of `Residue::binary_find_atom`: alternative location, serial range of the
+conformer, then bisection -/
+def Conformer.probeFind (c : Conformer) (serial : Nat) (alt : Option String) : Option HAC :=
+  if c.alt = alt then
+    match c.atoms.head?, c.atoms.getLast? with
+    | some f, some b =>
+      if f.serial ≤ serial ∧ serial ≤ b.serial then (c.binaryFindAtom serial).map fun a => ⟨a, c⟩ else none
+    | _, _ => none
+  else none
+
 def Residue.binaryFindAtom (r : Residue) (serial : Nat) (alt : Option String) : Option HAC :=
-  r.conformers.findSome? fun c =>
-    if c.alt = alt then
-      match c.atoms.head?, c.atoms.getLast? with
-      | some f, some b =>
-        if f.serial ≤ serial ∧ serial ≤ b.serial then (c.binaryFindAtom serial).map fun a => ⟨a, c⟩ else none
-      | _, _ => none
-    else none
+  r.conformers.findSome? fun c => c.probeFind serial alt
 
 /-- `none` at the outer level = panic (empty container met by the probe) -/
 def Chain.binaryFindAtom (c : Chain) (serial : Nat) (alt : Option String) : Option (Option HACR) :=
